@@ -1,7 +1,7 @@
 """C03 — calls never modify their arguments; objects never share state."""
 import random
 from gen import *
-from oracles import FrameOracle
+from oracles import FrameOracle, deep_snap, snap_diff
 from propbase import StreamProperty
 
 RULE = ("random histories over the core alphabet with up to 4 live objects; after every op every object in the store is "
@@ -250,6 +250,64 @@ def registry_oracle(tier, seed):
                         if sh:
                             key = "C03:shared-state:%s:%s" % (name, "+".join(sh))
                             fails.append({"key": key, "clause": key, "ops": [{"function": name, "shape": shape, "dim_pos": k}]})
+    # objects built from ONE caller-owned dims list / coords list / coordinate arrays, empty objects built with no arguments,
+    # and the objects one call returns together: an in-place change of one (rename, new_dim, squeeze, a written coordinate,
+    # sort) never shows in the other, in the caller's lists, or in objects constructed afterwards
+    def _two():
+        dl = ["x", "y", "z"]; cl = [np.arange(2.0), np.array([5.0, 3.0, 4.0]), np.array([7.0])]
+        return dl, cl, dnp.DNPData(np.arange(6.0).reshape(2, 3, 1), dl, cl), dnp.DNPData(-np.arange(6.0).reshape(2, 3, 1), dl, cl)
+    inplace = {"rename": lambda o: o.rename("x", "t2"), "new_dim": lambda o: o.new_dim("n", 5.0), "squeeze": lambda o: o.squeeze(),
+               "coord-write": lambda o: o.coords["y"].__setitem__(0, -99.0), "sort": lambda o: o.sort("y"),
+               "reorder": lambda o: o.reorder(["y"]), "coords-pop": lambda o: o.coords.pop("z")}
+    for nm, act in inplace.items():
+        dl, cl, a, b = _two()
+        dl0, cl0, b0 = list(dl), [c.copy() for c in cl], deep_snap(b)
+        with warnings.catch_warnings():
+            warnings.simplefilter("ignore")
+            try:
+                act(a)
+            except Exception:  # noqa: BLE001
+                pass
+        n_eval += 1
+        changed = snap_diff(b0, deep_snap(b))
+        if changed or dl != dl0 or len(cl) != len(cl0) or any(not np.array_equal(x, y) for x, y in zip(cl, cl0)):
+            key = "C03:shared-state:constructor-arguments:%s" % nm
+            fails.append({"key": key, "clause": key, "ops": [{"action": nm, "other_object_changed": changed, "callers_dims": dl}]})
+    with warnings.catch_warnings():
+        warnings.simplefilter("ignore")
+        e1, e2 = dnp.DNPData(), dnp.DNPData()
+        try:
+            e1.new_dim("x", 1.0); e1.attrs["k"] = 1; e1.add_proc_attrs("s", {"p": 1})
+        except Exception:  # noqa: BLE001
+            pass
+        e3 = dnp.DNPData()
+    n_eval += 1
+    for o in (e2, e3):
+        if list(o.dims) or o.attrs or o.proc_attrs or len(o.coords.coords):
+            key = "C03:shared-state:default-constructed-objects"
+            fails.append({"key": key, "clause": key, "ops": [{"dims": list(o.dims), "attrs": dict(o.attrs)}]}); break
+    try:
+        xs = np.linspace(0.0, 2.0, 12)
+        fd = dnp.DNPData(np.stack([2.0 * xs + 1.0, -xs + 3.0], axis=1), ["t", "k"], [xs, np.arange(2.0)])
+        with warnings.catch_warnings():
+            warnings.simplefilter("ignore")
+            fo = dnp.fit(lambda x, p, q: p * x + q, fd, "t", (1.0, 0.0))
+        parts = {k: v for k, v in fo.items() if isinstance(v, dnp.DNPData)}
+        for k1 in parts:
+            before = {k2: deep_snap(v) for k2, v in parts.items() if k2 != k1}
+            try:
+                parts[k1].rename(parts[k1].dims[0], "renamed_" + k1)
+                parts[k1].attrs["probe"] = k1
+            except Exception:  # noqa: BLE001
+                pass
+            n_eval += 1
+            for k2, sn in before.items():
+                ch = snap_diff(sn, deep_snap(parts[k2]))
+                if ch:
+                    key = "C03:shared-state:fit-results:%s-%s" % (k1, k2)
+                    fails.append({"key": key, "clause": key, "ops": [{"changed_through": k1, "visible_in": k2, "parts": ch}]})
+    except Exception:  # noqa: BLE001
+        pass
     # dictionaries handed to hydration
     hd = {"E_array": np.linspace(1, -20, 8), "E_powers": np.linspace(0.001, 0.5, 8), "T1_array": np.linspace(2.0, 2.4, 5),
           "T1_powers": np.linspace(0.001, 0.5, 5), "T10": 2.0, "T100": 2.5, "spin_C": 100.0, "field": 350.0, "smax_model": "tethered",
@@ -267,6 +325,45 @@ def registry_oracle(tier, seed):
     if not same(b1, hd) or not same(b2, hc):
         key = "C03:argument-modified:hydration:dictionaries"
         fails.append({"key": key, "clause": key, "ops": [{"function": "hydration"}]})
+    # what hydration RETURNS shares nothing with what it was given — also when the T1 series is already on the enhancement
+    # powers (no T1_powers key), so that no interpolation builds a new array
+    try:
+        from props.C20 import synth
+        rs = random.Random(seed * 7919 + 303)
+        data, extra, _truth = synth(rs, "linear", "tethered", field=0.35)
+        for no_t1_powers in (False, True):
+            dd = copy.deepcopy(data)
+            if no_t1_powers:
+                dd["T1_array"] = np.array(_truth["T1E"], dtype=float); dd.pop("T1_powers")
+            with warnings.catch_warnings():
+                warnings.simplefilter("ignore")
+                res = dnp.hydration(dd, dict(extra))
+            n_eval += 1
+            ins = {k: v for k, v in dd.items() if isinstance(v, np.ndarray)}
+            for rk, rv in res.items():
+                if isinstance(rv, np.ndarray) and rv.size:
+                    for ik, iv in ins.items():
+                        if rv is iv or np.shares_memory(rv, iv):
+                            key = "C03:shared-state:hydration:result-%s-is-argument-%s" % (rk, ik)
+                            fails.append({"key": key, "clause": key, "ops": [{"function": "hydration", "T1_powers_given": not no_t1_powers}]})
+    except ImportError:
+        pass
+    # autophase_dep(method="manual", order="first", phase=<array>): the recorded phase must not be the caller's array
+    try:
+        from dnplab.processing.phase import autophase_dep
+        xx = np.linspace(-5.0, 5.0, 16)
+        dd = dnp.DNPData(np.exp(-xx ** 2) + 0j, ["f2"], [xx])
+        ph = np.linspace(0.0, 1.0, 16); ph0 = ph.copy()
+        with warnings.catch_warnings():
+            warnings.simplefilter("ignore")
+            oo = autophase_dep(dd, dim="f2", method="manual", order="first", phase=ph)
+        n_eval += 1
+        shared = [k for k, v in oo.attrs.items() if isinstance(v, np.ndarray) and (v is ph or np.shares_memory(v, ph))]
+        if shared or not np.array_equal(ph, ph0):
+            key = "C03:shared-state:autophase_dep:attrs-hold-argument-array"
+            fails.append({"key": key, "clause": key, "ops": [{"function": "autophase_dep", "attrs": shared}]})
+    except Exception:  # noqa: BLE001
+        pass
     # the deprecated workspace form of the same call (one container holding both dictionaries), with and without constants
     for with_c in (True, False):
         ws = {"hydration_inputs": copy.deepcopy(b1)}
